@@ -8,7 +8,7 @@ LEAN_TARGETS = ["Rsp.Props.C13", "Rsp.Props.C12Merge"]
 THEOREMS = ["Rsp.Props.C13.decttl_length", "Rsp.Props.C13.decttl_zero", "Rsp.Props.C13.decttl_pos",
             "Rsp.Props.C13.decttl_meets_spec", "Rsp.Props.C13.checkttl_plain", "Rsp.Props.C13.checkttl_plain_first",
             "Rsp.Props.C13.addttl_plain", "Rsp.Props.C13.effAddTtl_table", "Rsp.Props.C13.loopPrevents_iff",
-            "Rsp.Props.C12.inherited_on_iff"]
+            "Rsp.Props.C12.inherited_on_iff", "Rsp.Props.C13.forward_loop_prevented", "Rsp.Props.C13.rewrite_ttl_exceeded"]
 RULE = ("world: histories with TTL attributes of the configured type (plain or vendor) at 0,1,2,3,256,.. and odd lengths on requests and replies, AddTTL per peer/global, "
         "client and server blocks sharing a name under LoopPrevention on/off/unset; non-trivial = something was forwarded or delivered. decttl: every value of length 0..2 enumerated (thorough: plus 786432 three-octet values), longer ones sampled around borrow chains; "
         "a case is non-trivial when the value is non-empty and distinct by content")
@@ -102,7 +102,7 @@ def gen_run(exe, rng, tier):
     return WH.run_parallel(exe, rng, 300 if tier == "quick" else 6000, build_ttl)
 
 LEVEL_TEXT = ("Machine-checked Lean 4 theorems: checkttl decrements exactly the first TTL attribute and leaves the rest (checkttl_plain, checkttl_plain_first), AddTTL appends the "
-              "configured value (addttl_plain, effAddTtl_table), loop prevention holds a request back iff in effect and names equal (loopPrevents_iff); the whole pipeline with these "
+              "configured value (addttl_plain, effAddTtl_table), loop prevention holds a request back iff in effect and names equal (loopPrevents_iff), and in the model of radsrv a held-back request and a request whose TTL is used up are released with no server slot and no reply queue touched (forward_loop_prevented, rewrite_ttl_exceeded); the whole pipeline with these "
               "steps is the World model, tied to radsrv/replyh by differential histories, with the hop rule evaluated on the implementation's own forwarded packets. For TTL values of EVERY length, the model of decttl stores n-1 big-endian in the same length and "
               "reports 'pass on' exactly when n>=2 (decttl_meets_spec, by induction over the byte list - no bound). The model is tied to the C code by "
               "exhaustive differential runs (all values of length <=2/3) plus sampled borrow chains under ASan/UBSan, and the executable spec is evaluated on the C outputs.")
